@@ -409,6 +409,7 @@ func init() {
 						}
 						for _, cs := range cutsets {
 							eval(c10Case{Op: "cut-concat", L: L, Locs: []string{enc, "R(0," + fmt.Sprint(L) + ",0)"}, Cuts: cs, Keys: []string{"", "source"}}, true)
+							eval(c10Case{Op: "cut-concat", L: L, Locs: []string{enc}, Cuts: cs}, true)
 						}
 					})
 					complete = complete && done
@@ -431,6 +432,8 @@ func init() {
 					loc := locs[idx/per]
 					cuts := cutsets[idx%per]
 					c := c10Case{Op: "cut-concat", L: L, Locs: []string{locdom.Encode(loc), "R(0," + fmt.Sprint(L) + ",0)"}, Cuts: cuts, Keys: []string{"", "source"}}
+					// the same without the record-spanning source feature (a piece may then carry no feature at all)
+					eval(c10Case{Op: "cut-concat", L: L, Locs: []string{locdom.Encode(loc)}, Cuts: cuts}, len(cuts) >= 2)
 					inside := false
 					for _, a := range denOf(loc).Bases() {
 						for _, ct := range cuts {
